@@ -593,7 +593,7 @@ pub fn exec_catalog(case: &CatCase) -> Outcome {
         .collect();
     let pred = to_pred(&case.pred, &kinds);
     let rt = tokio::runtime::Builder::new_current_thread().enable_all().build().unwrap();
-    let (returned, expected): (Vec<String>, Vec<String>) = rt.block_on(async {
+    let (returned, expected, after_compaction): (Vec<String>, Vec<String>, Option<Vec<String>>) = rt.block_on(async {
         let store: Arc<dyn object_store::ObjectStore> = Arc::new(object_store::memory::InMemory::new());
         let client = ObjectStoreMetadataClient::new(store, ObjectStoreMetadataConfig::default());
         let mut expected = Vec::new();
@@ -614,7 +614,17 @@ pub fn exec_catalog(case: &CatCase) -> Outcome {
         }
         client.save_chunk_metadata(&md).await.unwrap();
         let got = client.get_chunks_with_predicates(TimeRange::new(0, 1000), &[pred.clone()]).await.unwrap();
-        (got.into_iter().map(|e| e.chunk_path).collect(), expected)
+        // the first two chunks are then compacted into one (the catalog's own publish step decides
+        // what statistics the merged chunk carries): it holds the rows of both
+        let mut after = None;
+        if chunks.len() >= 2 {
+            let target = ChunkMetadata { path: "t/data/merged.parquet".into(), min_timestamp: 10, max_timestamp: 21, row_count: 2, size_bytes: 2 };
+            if client.publish_compaction(&["t/data/chunk_0.parquet".to_string(), "t/data/chunk_1.parquet".to_string()], &target).await.is_ok() {
+                let got2 = client.get_chunks_with_predicates(TimeRange::new(0, 1000), &[pred.clone()]).await.unwrap();
+                after = Some(got2.into_iter().map(|e| e.chunk_path).collect());
+            }
+        }
+        (got.into_iter().map(|e| e.chunk_path).collect(), expected, after)
     });
     let mut out = Outcome::pass();
     let pruned = chunks.len() - returned.len();
@@ -628,6 +638,21 @@ pub fn exec_catalog(case: &CatCase) -> Outcome {
     for e in &expected {
         if !returned.contains(e) {
             out.set_fail("catalog-prune-unsound", format!("{} holds a row satisfying {:?} but was not returned", e, pred));
+        }
+    }
+    if let Some(after) = after_compaction {
+        out.class("queried-again-after-a-compaction");
+        let merged_matches = expected.iter().any(|e| e.ends_with("chunk_0.parquet") || e.ends_with("chunk_1.parquet"));
+        if !after.iter().any(|p| p.ends_with("merged.parquet")) {
+            out.class("merged-chunk-pruned");
+            if merged_matches {
+                out.set_fail("catalog-prune-unsound:after-compaction", format!("chunks 0 and 1 were compacted into t/data/merged.parquet, which holds a row satisfying {:?} (a source did before the compaction), but the merged chunk was not returned", pred));
+            }
+        }
+        for e in expected.iter().filter(|e| !(e.ends_with("chunk_0.parquet") || e.ends_with("chunk_1.parquet"))) {
+            if !after.contains(e) {
+                out.set_fail("catalog-prune-unsound:after-compaction", format!("{} holds a row satisfying {:?} but was not returned after a compaction of other chunks", e, pred));
+            }
         }
     }
     out
@@ -891,7 +916,7 @@ pub fn def() -> PropDef {
     PropDef {
         id: "C12",
         level: "exploration",
-        rule: "random predicate trees (depth<=4; 6 comparisons, IN, NOT IN, BETWEEN, AND, OR, NOT) over 3 columns of kind int/float/string with 1-7 rows each from a small domain that includes the literals; statistics = true min/max/has_nulls, or missing, or mistyped JSON. Non-trivial = the verdict was 'prune' or a literal equals a statistics end point (box check); some chunk pruned while another chunk matches (catalog check). sql-extraction: the same trees rendered as a SQL WHERE clause over the default schema's value_i64 / value_f64 / host (each comparison leaf in either operand order), pushed through QueryEngine::extract_column_predicates as QueryNode does, the conjunction of what comes back evaluated against the statistics and refuted the same way. Distinct = distinct canonical JSON of the case.",
+        rule: "random predicate trees (depth<=4; 6 comparisons, IN, NOT IN, BETWEEN, AND, OR, NOT) over 3 columns of kind int/float/string with 1-7 rows each from a small domain that includes the literals; statistics = true min/max/has_nulls, or missing, or mistyped JSON. Non-trivial = the verdict was 'prune' or a literal equals a statistics end point (box check); some chunk pruned while another chunk matches (catalog check; the first two chunks are then compacted through the catalog's publish_compaction and the query repeated: the merged chunk holds the rows of both). sql-extraction: the same trees rendered as a SQL WHERE clause over the default schema's value_i64 / value_f64 / host (each comparison leaf in either operand order), pushed through QueryEngine::extract_column_predicates as QueryNode does, the conjunction of what comes back evaluated against the statistics and refuted the same way. Distinct = distinct canonical JSON of the case.",
         assumptions: &[
             "SQL three-valued logic as implemented in the harness' reference evaluator",
             "candidate set {min,max,literal,successor/predecessor of literal} is complete for comparison trees (truth is piecewise constant between literals)",
